@@ -432,4 +432,23 @@ theorem hasJ_accepts (a b : List Char) : mHasJ.accepts 0 (classes (a ++ 'j' :: b
       rw [this]
       exact ih
 
+/-- the same for ANY character of the class of `j` (the characters no resolver regex mentions: `/ @ , ( ) \` and the
+letters `G H J K M P Q V W X g h j k m p q v w z` with the tables as generated today) -/
+theorem hasOther_accepts (x : Char) (hx : charClass x = cJ) (a b : List Char) : mHasJ.accepts 0 (classes (a ++ x :: b)) = true := by
+  induction a with
+  | nil =>
+    rw [List.nil_append, classes_cons, accepts_step _ _ _ _ (by decide)]
+    have : mHasJ.step 0 (charClass x) = 1 := by simp [mHasJ, hx]
+    rw [this]
+    exact accepts_absorbing mHasJ 1 (by decide) rfl (fun c => rfl) _
+  | cons y t ih =>
+    rw [List.cons_append, classes_cons, accepts_step _ _ _ _ (by decide)]
+    by_cases hy : charClass y = cJ
+    · have : mHasJ.step 0 (charClass y) = 1 := by simp [mHasJ, hy]
+      rw [this]
+      exact accepts_absorbing mHasJ 1 (by decide) rfl (fun c => rfl) _
+    · have : mHasJ.step 0 (charClass y) = 0 := by simp [mHasJ, hy]
+      rw [this]
+      exact ih
+
 end Jap.TextSafe
